@@ -701,6 +701,89 @@ class Interp:
         return v
 
     # ---------------------------------------------------------------- solver glue
+    _uf_def_cache = {}
+
+    def _light_pc(self, pc):
+        """Path condition for FEASIBILITY queries: definitional equalities `v!n == term` whose term applies a libm function are left out.
+        Without lemmas they cannot make a path infeasible (v!n is then unconstrained, which only over-approximates the feasible paths -
+        sound for verification), and the long ephemeris series make z3 ignore its timeout."""
+        out = []
+        for c in pc:
+            if isinstance(c, bool):
+                out.append(c)
+                continue
+            i = c.get_id()
+            drop = self._uf_def_cache.get(i)
+            if drop is None:
+                drop = False
+                if z3.is_eq(c) and c.arg(0).num_args() == 0 and "!" in c.arg(0).decl().name():
+                    stack, seen = [c.arg(1)], set()
+                    while stack and not drop:
+                        e = stack.pop()
+                        j = e.get_id()
+                        if j in seen:
+                            continue
+                        seen.add(j)
+                        if z3.is_app(e):
+                            if e.decl().name().startswith("rs_"):
+                                drop = True
+                            else:
+                                stack.extend(e.children())
+                self._uf_def_cache[i] = drop
+            if not drop:
+                out.append(c)
+        return out
+
+    _names_cache = {}
+
+    def _names(self, e):
+        i = e.get_id()
+        r = self._names_cache.get(i)
+        if r is None:
+            r, stack, seen = set(), [e], set()
+            while stack:
+                x = stack.pop()
+                j = x.get_id()
+                if j in seen:
+                    continue
+                seen.add(j)
+                if z3.is_app(x):
+                    if x.num_args() == 0 and x.decl().kind() == z3.Z3_OP_UNINTERPRETED:
+                        r.add(x.decl().name())
+                    stack.extend(x.children())
+            if len(self._names_cache) > 200000:
+                self._names_cache.clear()
+            self._names_cache[i] = r
+        return r
+
+    def _slice_pc(self, pc, cond):
+        """Relevance slice for a feasibility query: the definitions of the abbreviation constants reachable from `cond`, plus every
+        other constraint whose abbreviation constants are all in that set. Leaving constraints out over-approximates feasibility."""
+        defs, others = {}, []
+        for c in pc:
+            if isinstance(c, bool):
+                if not c:
+                    return [False]
+                continue
+            if z3.is_eq(c) and c.arg(0).num_args() == 0 and "!" in c.arg(0).decl().name() and c.arg(0).decl().name() not in defs:
+                defs[c.arg(0).decl().name()] = c
+            else:
+                others.append(c)
+        want, todo, chosen = set(), [n for n in self._names(cond) if "!" in n], []
+        while todo:
+            n = todo.pop()
+            if n in want:
+                continue
+            want.add(n)
+            d = defs.get(n)
+            if d is not None:
+                chosen.append(d)
+                todo.extend(m for m in self._names(d.arg(1)) if "!" in m and m not in want)
+        for c in others:
+            if all(("!" not in n) or (n in want) for n in self._names(c)):
+                chosen.append(c)
+        return chosen + [cond]
+
     def feasible(self, st, cond):
         """True unless pc ∧ cond is proved unsatisfiable."""
         if isinstance(cond, bool):
@@ -717,7 +800,14 @@ class Interp:
             return d
         import time
         t0 = time.time()
-        r = self.smt.check(st.pc + [c], timeout_ms=self.check_timeout_ms)
+        # 1. relevance slice (weaker query): unsat there is unsat of the full path condition. 2. only for path conditions of ordinary size
+        #    the full query is asked as well (it can prune more); for very long ones (ephemeris series, 600+ definitional equalities)
+        #    z3 ignores its timeout on the full query and the slice verdict stands (over-approximation of feasibility: sound).
+        light = self._light_pc(st.pc)
+        sl = self._slice_pc(light, c)
+        r = self.smt.check(sl, timeout_ms=self.check_timeout_ms)
+        if r != "unsat" and len(sl) < len(st.pc) + 1 and len(st.pc) <= 200:
+            r = self.smt.check(st.pc + [c], timeout_ms=self.check_timeout_ms)
         self.stats["feas_checks"] += 1
         self.stats["feas_time"] += time.time() - t0
         return r != "unsat"
